@@ -86,7 +86,8 @@ EXPECTED_REASON = {
     "K.allapps-tee": "allApplications field was present in teeEnforced",
     "K.origin-imported": "teeEnforced.origin", "K.origin-absent": "teeEnforced.origin",
     "K.purpose-sign-verify": "teeEnforced.purpose", "K.purpose-verify": "teeEnforced.purpose",
-    "K.purpose-absent": "teeEnforced.purpose",
+    "K.purpose-absent": "teeEnforced.purpose", "K.origin-software-only": "teeEnforced.origin",
+    "K.purpose-software-only": "teeEnforced.purpose", "K.origin-and-purpose-software-only": "teeEnforced.origin",
     # android-safetynet
     "S.ver-missing": "missing version (SafetyNet)", "S.response-missing": "missing response (SafetyNet)",
     "S.jws-two-parts": "did not have three parts", "S.jws-four-parts": "did not have three parts",
